@@ -43,6 +43,8 @@ type WinCfg struct {
 	ISSPlace int     `json:"iss_place"` // C14: 0 none, 1 stack just below 2^31, 2 stack just below 2^32, 3/4 peer likewise
 	ISSBack  int     `json:"iss_back"`
 	Cookie   bool    `json:"syn_cookies,omitempty"`   // passive open through the SYN-cookie path (listener in flood mode)
+	DupSA    bool    `json:"syn_ack_repeated,omitempty"` // active open: the peer's SYN-ACK arrives a second time (it missed the ACK)
+	SAWin    int     `json:"syn_ack_window,omitempty"`   // active open: the window the peer's SYN-ACK offers (0 = 65535)
 	ISSMid   bool    `json:"iss_mid_space,omitempty"` // the neutral twin of a C14 run: same placement, counted back from mid-space values
 }
 
@@ -75,6 +77,10 @@ func genWinCfg(rng *sim.Rand, tier string) WinCfg {
 		c.MaxSteps = rng.Range(50, 600)
 	}
 	c.Cookie = c.Passive && rng.Chance(0.3)
+	c.DupSA = !c.Passive && rng.Chance(0.3)
+	if !c.Passive && rng.Chance(0.4) {
+		c.SAWin = []int{100, 1000, 3000, 20000}[rng.Intn(4)]
+	}
 	return c
 }
 
@@ -107,6 +113,7 @@ type winWorld struct {
 	lastData *Decoded
 	mssLimit int
 	peerWin  uint16 // the window field of the peer's last segment
+	sawAck   bool   // the peer has sent an ACK after the handshake (its window field is read with the scale factor)
 	// role 1 (stack receives)
 	sent     int64 // in-order bytes sent by the peer (offset of next in-order byte)
 	read     int64
@@ -171,12 +178,25 @@ func (w *winWorld) establish() bool {
 			return false
 		}
 		syn := mine[0]
-		p.Send(codec.FlagSYN|codec.FlagACK, p.ISS, syn.Seq+1, 65535, w.synOpts(syn.TSVal, syn.HasTS), nil)
+		saWin := uint16(65535)
+		if w.cfg.SAWin > 0 {
+			saWin = uint16(w.cfg.SAWin)
+		}
+		p.Send(codec.FlagSYN|codec.FlagACK, p.ISS, syn.Seq+1, saWin, w.synOpts(syn.TSVal, syn.HasTS), nil)
 		p.SndNxt = p.ISS + 1
 		p.TSOn = w.cfg.TS && syn.HasTS
 		p.Mine(w.Take())
 		if _, err := ep.GetRemoteAddress(); err != nil {
 			return false
+		}
+		if w.cfg.DupSA {
+			// the same SYN-ACK once more: it offers what it offered the first time (65535 bytes, unscaled)
+			tsOn := p.TSOn
+			p.TSOn = false
+			p.Send(codec.FlagSYN|codec.FlagACK, p.ISS, syn.Seq+1, saWin, w.synOpts(syn.TSVal, syn.HasTS), nil)
+			p.TSOn = tsOn
+			p.Mine(w.Take())
+			w.Probes["syn_ack_repeated"]++
 		}
 		w.ep, w.p = ep, p
 	} else {
@@ -233,6 +253,9 @@ func (w *winWorld) establish() bool {
 	}
 	// the window of a SYN / SYN-ACK is never scaled
 	w.edge, w.peerWin = 65535, 65535
+	if !w.cfg.Passive && w.cfg.SAWin > 0 {
+		w.edge, w.peerWin = int64(w.cfg.SAWin), uint16(w.cfg.SAWin)
+	}
 	w.bogus = map[int64]bool{}
 	return true
 }
@@ -355,6 +378,7 @@ func (w *winWorld) senderStep(s Step) {
 			w.edge = e
 		}
 		w.peerWin = win
+		w.sawAck = true
 		p.Send(codec.FlagACK, p.SndNxt, p.RcvNxt, win, nil, nil)
 		w.Probes["acks_sent"]++
 		if win == 0 {
@@ -363,6 +387,9 @@ func (w *winWorld) senderStep(s Step) {
 	case "farack":
 		// an acknowledgement of data that was never sent, half the sequence space (give or take one) ahead:
 		// it acknowledges nothing; whatever is queued behind a closed window is still owed to the peer
+		if !w.sawAck {
+			break // (its window field would be read with the scale factor, unlike the SYN-ACK's: repeat only what an ACK has offered before)
+		}
 		d := uint32(1<<31) + uint32(s.A%3) - 1
 		if s.A >= 3 {
 			d = uint32(1 << 30)
